@@ -2343,6 +2343,11 @@ MALFORMED = [
     "setoption name Hash value -1", "setoption name Hash value -100000", "setoption name Hash value abc", "setoption name Hash value",
     "position startpos moves " + " ".join(["g1f3", "g8f6", "f3g1", "f6g8"] * 130),      # 520 half moves: more than the position can hold
     "position startpos moves " + " ".join(["b1c3", "b8c6", "c3b1", "c6b8"] * 400),
+    # just beyond the longest game the engine takes (383 half moves: the history array leaves room for the search depth and nothing
+    # else) and just below the size of the array: refused, or else the next search must survive
+    "position startpos moves " + " ".join(["g1f3", "g8f6", "f3g1", "f6g8"] * 96),             # 384
+    "position startpos moves " + " ".join((["g1f3", "g8f6", "f3g1", "f6g8"] * 113)[:450]),
+    "position startpos moves " + " ".join((["b1c3", "b8c6", "c3b1", "c6b8"] * 128)[:511]),
     "position startpos moves e2e4 moves e7e5", "position startpos moves e2e4q", "position startpos moves 0000", "position startpos moves e7e8q",
     "go depth 99999999999999999999 x", "setoption name Hash value 1.5", "setoption name Hash value 99999999999999999999",
     "xyz", "   ", "\t", "quit2", "u c i", "\u2654\u2655 e2e4", "go" + " x" * 2000, "position " + "9" * 3000, "=" * 20000,
